@@ -380,7 +380,7 @@ func (ss *sess) walk(wn int, sites []site, withHooks bool, withExpiry bool) bool
 
 // Run is the C05 check.
 func Run(ctx *core.Ctx) {
-	ctx.Rule = "matrix: for every (population of other hooks in {none, 30 elsewhere, 300 incl. same-rectangle/overlapping/other keys}) x (fence shape in {BOUNDS rectangle, NEARBY POINT circle, polygon OBJECT}) x (DETECT in 31 non-empty subsets + default) x (MATCH, WHERE, COMMANDS variant: all 20 [quick: all 20 without population, a rotating 5 of 20 with populations]) one fence is created (channel always; webhook + live with the same definition in a sample [quick] / always [thorough]) and a fixed script drives all 7 transitions by SET (none->in, in->in, in->out, out->out, out->out crossing, out->in, none->out; plus diagonal near-miss and inside-bounding-box-but-outside positions), FSET inside and outside, a non-matching id, a WHERE-false object, DEL of an inside object, PDEL, DROP; then random walks of 3 objects through 4-6 overlapping fences of mixed shape/DETECT/kind incl. expiry (EX 1). Every command is closed by markers; messages before the marker are compared with the Appendix C table (order, no others, id/object/fields). non-trivial = judged (command, fence) pair with >= 1 expected message; distinct key = (transition, DETECT set, command, delivery kind, fence shape, population)"
+	ctx.Rule = "matrix: for every (population of other hooks in {none, 30 elsewhere, 300 incl. same-rectangle/overlapping/other keys}) x (fence shape in {BOUNDS rectangle, NEARBY POINT circle, polygon OBJECT}) x (DETECT in 31 non-empty subsets + default) x (MATCH, WHERE, COMMANDS variant: all 20 [quick: all 20 without population, a rotating 5 of 20 with populations]) one fence is created (channel always; webhook + live with the same definition in a sample [quick] / always [thorough]) and a fixed script drives all 7 transitions by SET (none->in, in->in, in->out, out->out, out->out crossing, out->in, none->out; plus diagonal near-miss and inside-bounding-box-but-outside positions), FSET inside and outside, a non-matching id, a WHERE-false object, DEL of an inside object, PDEL, DROP; positions 0.1-0.3 % inside the east / west extreme of NEARBY fences at latitudes 60-85 (channel and live connection with the same arguments must both report them); then random walks of 3 objects through 4-6 overlapping fences of mixed shape/DETECT/kind incl. expiry (EX 1). Every command is closed by markers; messages before the marker are compared with the Appendix C table (order, no others, id/object/fields). non-trivial = judged (command, fence) pair with >= 1 expected message; distinct key = (transition, DETECT set, command, delivery kind, fence shape, population)"
 	ctx.Assumptions = []string{
 		"positions keep a relative distance >= 0.15 (of the area half-size) from every area boundary; a path counts as crossing only if it gets >= 0.10 deep, as missing only if it stays >= 0.10 away, otherwise both outcomes are accepted",
 		"del is required only for objects that were inside (and matched MATCH/WHERE); drop only for default-DETECT fences; both are forbidden only when COMMANDS excludes them (del also when MATCH excludes the id)",
@@ -402,6 +402,8 @@ func Run(ctx *core.Ctx) {
 	nWalks := ctx.Pick(36, 1200)
 
 	var wg sync.WaitGroup
+	wg.Add(1)
+	go func() { defer wg.Done(); rimProbe(ctx, bin) }()
 	var mu sync.Mutex
 	planned, done := 0, 0
 	widBase := 0
